@@ -255,6 +255,41 @@ static Verdict run_exh(const ExhCase &c) {
     }
     if (g_acc_bad) v.fail("accessor address outside the pixel storage (wide)");
   }
+  // narrowing from floating point: an increasing ramp from far below 0 to far above 1 (unclamped / HDR samples) must
+  // store 0 for every value <= 0, the channel maximum for every value >= 1, and never decrease in between
+  if (v.ok && packed_rgb(f) && !is_srgb(f) && FORMATS[c.fmt].dst_ok && bpp(f) <= 32) {
+    const int N = 400;
+    Bits fb = gen_bits_fixed(fmt_index(PIXMAN_rgba_float), N, 1, 1);
+    fb.fill = FILL_ZERO;
+    auto fsrc = make_image(fb);
+    float *q = (float *)fsrc->rowp(0);
+    for (int i = 0; i < N; i++) {
+      float val = i < 100 ? -3.0f + 3.0f * i / 100 : i < 300 ? (i - 100) / 200.0f : 1.0f + 2.0f * (i - 300) / 99;
+      if (i == 0) val = -1e30f;
+      if (i == N - 1) val = 1e30f;
+      for (int k = 0; k < 4; k++) q[4 * i + k] = val;
+    }
+    Bits nb = gen_bits_fixed(c.fmt, N, 1, 2);
+    nb.fill = FILL_RANDOM;
+    auto ndst = make_image(nb);
+    pixman_image_composite32(PIXMAN_OP_SRC, fsrc->im, nullptr, ndst->im, 0, 0, 0, 0, 0, 0, N, 1);
+    uint32_t prev[4] = {0, 0, 0, 0};
+    int bitsn[4] = {abits(f), rbits(f), gbits(f), bbits(f)};
+    for (int i = 0; i < N && v.ok; i++) {
+      Ch ch = unpack(f, raw_get(ndst->rowp(0), bpp(f), i));
+      uint32_t cv[4] = {ch.a, ch.r, ch.g, ch.b};
+      float val = q[4 * i];
+      for (int k = 0; k < 4 && v.ok; k++) {
+        if (!bitsn[k]) continue;
+        uint32_t mx = fieldmask(bitsn[k]);
+        if (val <= 0 && cv[k] != 0) v.fail(fmt("narrowing %g to %s: channel %d stores %u, not 0", (double)val, FORMATS[c.fmt].name, k, cv[k]));
+        else if (val >= 1 && cv[k] != mx) v.fail(fmt("narrowing %g to %s: channel %d stores %u, not the maximum %u", (double)val, FORMATS[c.fmt].name, k, cv[k], mx));
+        else if (cv[k] < prev[k]) v.fail(fmt("narrowing to %s is not monotone at %g: channel %d goes from %u to %u", FORMATS[c.fmt].name, (double)val, k, prev[k], cv[k]));
+        prev[k] = cv[k];
+      }
+    }
+    v.label("float_ramp_narrowed");
+  }
   v.nontrivial = true;
   if (c.acc) v.label("accessors");
   return v;
